@@ -57,6 +57,9 @@ MENU = [
     ("d[5] = 7", "mut", "d", []), ("d[5] += 1", "mut", "d", []),
     ("v[3] = 7", "mut", "v", []), ("y[3] = 7", "mut", "y", []), ('s[3] = "z"', "mut", "s", []),
     ("q[fld] append= 5", "mut", "q", ["f0"]), ("q[fld][2] = 9", "mut", "q", ["f0"]), ("q[num] = 3", "mut", "q", None),
+    # the same field through the symbol-access spelling
+    ("q::fld append= 5", "mut", "q", ["f0"]), ("q::fld ++= [1]", "mut", "q", ["f0"]), ("q::fld[2] = 9", "mut", "q", ["f0"]), ("q::fld[3] += 1", "mut", "q", ["f0"]),
+    ("pop q::fld", "mut", "q", ["f0"]),
     ("t append= 1", "mut", "t", []), ("t ++= [1]", "mut", "t", []), ("t[5] = 7", "mut", "t", []), ("t[6] += 1", "mut", "t", []),
     ("e[1] append= 5", "mut", "e", ["k0"]), ("e[1] ++= [1]", "mut", "e", ["k0"]), ("e[1][2] = 7", "mut", "e", ["k0"]), ("e[1][3] += 1", "mut", "e", ["k0"]),
     ("pop e[1]", "mut", "e", ["k0"]), ("g[1] append= 5", "mut", "g", ["k0"]), ("g[1][2] = 7", "mut", "g", ["k0"]), ("g[2] append= 1", "mut", "g", ["k1"]),
@@ -228,6 +231,9 @@ LOOPS = [
     ("bytes", "x := bytes((1 to {n}) map (% 256))", "for (i <- 0 til {k}) x[i % {n}] = i % 256"),
     ("struct-field-append", "struct Foo (fld, num); x := Foo(list(1 to {n}), 0)", "for (i <- 0 til {k}) x[fld] append= i"),
     ("struct-field-index", "struct Foo (fld, num); x := Foo(list(1 to {n}), 0)", "for (i <- 0 til {k}) x[fld][i % {n}] = i"),
+    ("struct-symbol-append", "struct Foo (fld, num); x := Foo(list(1 to {n}), 0)", "for (i <- 0 til {k}) x::fld append= i"),
+    ("struct-symbol-index-op", "struct Foo (fld, num); x := Foo(list(1 to {n}), 0)", "for (i <- 0 til {k}) x::fld[i % {n}] += 1"),
+    ("struct-in-list-symbol", "struct Foo (fld, num); x := [0, Foo(list(1 to {n}), 0)]", "for (i <- 0 til {k}) x[1]::fld append= i"),
     ("dict-of-lists", "x := {{:[]}}; x[1] = list(1 to {n})", "for (i <- 0 til {k}) x[1] append= i"),
     ("string-index", 'x := "ab" $* ({n} // 2)', 'for (i <- 0 til {k}) x[i % {n}] = "z"'),
     ("typed-list-append", "x: list = list(1 to {n})", "for (i <- 1 to {k}) x append= i"),
